@@ -544,7 +544,7 @@ pub fn run(ctx: &Ctx) -> ! {
     let mut rep = Report::new(
         ctx,
         "model_checking",
-        "messages {empty operation group, Print-Job request, Get-Printer-Attributes response, bare IppPayload} x payload source {none, blocking cursor, blocking 1-byte dribbler, blocking with Interrupted, async ready, async fragmented, async not-ready with immediate wake, async not-ready with deferred wake (fired by the manual executor / a helper thread under block_on)} x payload length {0,1,2,8191,8192,8193 (+65536, 3 MiB)} x consumer {into_read, into_async_read, into_async_read coming back with a DIFFERENT buffer after every not-ready answer} with EVERY sequence of <= 2 (3) buffer sizes over {0,1,2,3,8,H-1,H,H+1,4096,65536} (a zero-length buffer must return 0 without ending the stream) followed by a fixed size from {7,4096,65536} until end-of-stream. Oracle: bytes received == to_bytes() ++ payload, then Ok(0) three times (when the payload source is first touched is recorded, not judged). states = distinct (message, source, length, interface); transitions = reads answered by the payload source; non-trivial = non-empty payload",
+        "messages {empty operation group, Print-Job request, Get-Printer-Attributes response, bare IppPayload} x payload source {none, blocking cursor, blocking 1-byte dribbler, blocking with Interrupted, async ready, async fragmented, async not-ready with immediate wake, async not-ready with deferred wake (fired by the manual executor / a helper thread under block_on)} x payload length {0,1,2,8191,8192,8193 (+65536, 3 MiB)} x consumer {into_read, into_async_read, into_async_read coming back with a DIFFERENT buffer after every not-ready answer} with EVERY sequence of <= 2 (3) buffer sizes over {0,1,2,3,8,H-1,H,H+1,4096,65536} (a zero-length buffer must return 0 without ending the stream) followed by a fixed size from {7,4096,65536} until end-of-stream; plus payload sources (blocking and async) that FAIL after 0, 1, 5, 8192, 8193 bytes with each of 10 error kinds, read through both interfaces: the stream may fail but never ends cleanly before the payload did, and what it delivered is a prefix of the expected stream. Oracle: bytes received == to_bytes() ++ payload, then Ok(0) three times (when the payload source is first touched is recorded, not judged). states = distinct (message, source, length, interface); transitions = reads answered by the payload source; non-trivial = non-empty payload",
     );
     rep.assume("deferred wake-ups under the blocking interface are fired by a helper OS thread (block_on must be woken from outside); its timing does not influence the byte stream");
     let msgs = messages();
